@@ -925,7 +925,26 @@ def check_escape(run: Run, res: Resolver) -> None:
     run.extra["functions_analysed_for_escape"] = len(ef.funcs)
     used_exempt = set()
 
+    def dumps_of_converter_output(o: Origin) -> bool:
+        # json.dumps / yaml.dump applied to the result of _ast_to_dict (directly or through a local), anywhere in mcp.eject
+        if not _short(o.fqn).startswith("mcp.eject:"):
+            return False
+        fn = res.func_by_fqn(o.fqn)
+        for c in walk_no_nested(fn.node):
+            if isinstance(c, ast.Call) and ast.unparse(c.func) in ("json.dumps", "yaml.dump", "yaml.safe_dump") and c.lineno == o.lineno and c.args:
+                a = c.args[0]
+                if isinstance(a, ast.Name):
+                    ds = [x.value for x in walk_no_nested(fn.node) if isinstance(x, ast.Assign) and any(isinstance(t, ast.Name) and t.id == a.id for t in x.targets)]
+                    return bool(ds) and all(isinstance(d, ast.Call) and ast.unparse(d.func) == "_ast_to_dict" for d in ds)
+                return isinstance(a, ast.Call) and ast.unparse(a.func) == "_ast_to_dict"
+        return False
+
     def exempt(o: Origin) -> str | None:
+        if dumps_of_converter_output(o):
+            for key in (("mcp.eject:EjectTool.execute", "json.dumps(data"), ("mcp.eject:EjectTool.execute", "yaml.dump(data")):
+                if key[1].split("(")[0] in o.construct:
+                    used_exempt.add(key)
+                    return ESCAPE_EXEMPT[key]
         for (fq, frag), why in ESCAPE_EXEMPT.items():
             if (_short(o.fqn) == fq or (fq.endswith(":*") and _short(o.fqn).startswith(fq[:-1]))) and frag in o.construct:
                 used_exempt.add((fq, frag))
